@@ -351,7 +351,7 @@ func init() {
 				SchedKinds: []string{"dev", "pct", "pct", "pctl", "pctl", "rw"}}
 			return genProgram(t, "C09", pf, th)
 		},
-		Oracles: []oracleFn{oC09, oC04},
+		Oracles: []oracleFn{oC09, oC04, oC09Resumed},
 		Foreign: []oracleFn{oCrash("*"), oDeadlock("C03"), oLivelock("C03")},
 		NonTrivial: func(ix *Index) (bool, []string) {
 			cl := classesOf(ix)
